@@ -207,7 +207,11 @@ class FilReader(Filterbank):
             msg = "Data section does not hold a whole number of samples"
             raise ValueError(msg)
         self._file.seek(start * self.samp_stride)
-        nreads, lastread = divmod(nsamps, (gulp - skipback))
+        if gulp == nsamps:
+            # The whole range fits in a single read: no overlap is needed
+            nreads, lastread = 0, nsamps
+        else:
+            nreads, lastread = divmod(nsamps, (gulp - skipback))
         if lastread < skipback:
             nreads -= 1
             lastread = nsamps - (nreads * (gulp - skipback))
